@@ -70,3 +70,32 @@ META["C03"] = {
     "text": "Exploration with a bounded-exhaustive steered sub-space: a real in-process MOSN with HTTP/1, bolt and HTTP/2 listeners, two scripted upstream hosts per protocol plus empty / dead / unknown clusters; ~530 (~8600) requests per run over routes {plain, retry policy with per-try timeout, unknown cluster, empty cluster, dead host, no route} x per-attempt upstream plans {reply, 5xx, 4xx, delayed, stall, close, RST, half response, late reply, large body} x {answered, abandoned by the client}, 8 concurrent clients per protocol. Steered: one request at a time with plans timed to collide; the goroutines of the per-try timer, the global timer, the upstream response and the first two upstream resets are parked just before their compare-and-swap and released in 12 of the 120 orders per (protocol, plan) in quick, all 120 in thorough. Oracle: exactly one response per non-abandoned request; two responses, or no terminal event for 15 s (all timeouts <= 1.5 s) while MOSN still counts the request active, are violations; request gauges must return to zero.",
     "note": "Steering only delays goroutines at existing preemption points (never holds them forever): every produced order is a legal schedule. The 15 s client watchdog is not a verdict by itself — it needs corroboration from MOSN's own active-request gauge. Reset reasons needing kernel-level faults (write timeout) are produced only through close/RST by the peer.",
 }
+
+META["C04"] = {
+    "engine": "vworker",
+    "design_ref": "DESIGN.md §3 C04",
+    "technique": "differential against an executable reference routing model written from the documented precedence (MatchRoute / MatchAllRoutes on real routers), near-exhaustive small domain alphabets; concurrent lookups under router-manager updates compared with single-threaded answers (race build)",
+    "text": "Exploration with an exhaustive sub-space: every set of 1..3 (1..4) domains of a 48-domain alphabet (exact, wildcard, ported, ':*', default, mixed case) against 11 host names x 4 ports + absent Host; random configurations of 1..9 virtual hosts with 0..8 ordered routes mixing path / prefix / regex / header / method / variable / RPC rules (~9.4e5 judged lookups quick); duplicate domains must be rejected. Determinism: 16 goroutines repeat ~270 probes through the router wrapper while a writer updates OTHER router names and adds / removes routes on a scratch virtual host; update-and-back and remove-then-re-add are compared with fresh builds.",
+    "note": "Zones the statement leaves open (port-less domain vs ported request, ':*' vs absent port, class of '*:80', exact-path letter case, unanchored regex, DSL rules) are generated only where all 16 readings agree, or not at all. Trusts Go regexp and the variable / header-map packages.",
+}
+META["C13"] = {
+    "engine": "vworker",
+    "design_ref": "DESIGN.md §3 C13",
+    "technique": "reference TLS policy model (context selection + trust matrix) judged over real loopback handshakes between Go's crypto/tls peers and MOSN's TLS context managers, and through a running in-process MOSN (TLS listener / TLS cluster, inspector)",
+    "text": "Exploration with exhaustive matrices: all 2^4 flag combinations (verify_client, require_client_cert, insecure_skip, inspector) x 7 peer-certificate kinds (none, self-signed, other CA, other CA with same DN, expired, right CA without key, right CA) and flags x 6 upstream certificate kinds x server_name set/empty; seeded sampling of 1..5 overlapping contexts (static or SDS-fed, ready / late / disabled; names a.test, *.test, *.a.test; ALPN over {h2, http/1.1}) x ClientHello grid (SNI absent / upper case / deeper labels / protocol id, ALPN lists, TLS 1.0-1.3); ~5.9e3 handshakes quick. The certificate seen, the handshake result and an application-data round trip are compared with the model.",
+    "note": "crypto/tls and crypto/x509 are the reference peers. A selection case is judged only when all readings of 'wildcard label' and 'certificate names' agree; client auth is judged only under verify_client AND require_client_cert (other modes are counted). Odd batches run with GODEBUG=tls13=1 because the forked TLS stack enables TLS 1.3 only then.",
+}
+META["C19"] = {
+    "engine": "vworker",
+    "design_ref": "DESIGN.md §3 C19",
+    "technique": "round-trip comparator: load -> dump -> load -> dump with canonical-JSON equality, reflective field-by-field model comparison and an input-leaf-survives check, at codec level (reflection-driven JSON generator over the v2 type graph) and through the real init path in child processes for generated and all shipped sample configurations",
+    "text": "Exploration with one exhaustive set: ~1e4 (1.2e6) configurations generated at the JSON level from the struct tags of 28 v2 root types (363 schema fields, 18 custom marshaler pairs, durations, sizes, CIDR, per-filter config, dynamic cluster/router directories, a YAML subset) through Unmarshal/Marshal twice; 320 (16000) generated configurations and EVERY shipped sample under configs/ and examples/ (75 files: 62 loadable, 13 listed as not loadable with reason) through Load -> DefaultInitStage -> Mosn.Init -> dump -> persist -> reload -> dump in child processes. Oracles: second dump equals first up to the order of name-keyed lists; reloaded model equals loaded model field by field; every input value at a path the struct tags understand reappears with equal value and JSON type.",
+    "note": "Benign normalisations are an explicit allow-list (N1-N7, S1-S3 at the top of c19_cmp.go, e.g. tls_context folded into tls_context_set, close_graceful alias). Trusts encoding/json, ghodss/yaml, time.ParseDuration, datasize. Children run in private network namespaces when permitted (port clashes are inconclusive otherwise).",
+}
+META["C20"] = {
+    "engine": "vworker",
+    "design_ref": "DESIGN.md §3 C20",
+    "technique": "per-position marker secrets (positions discovered by reflection over the config type graph) searched in every admin dump endpoint; before/after equality of the non-redacted persisted dump against a twin run; concurrent admin dumps vs file dumps under the race detector with anchors, plus a hook-steered dump between assembling and marshalling",
+    "text": "Exploration with an exhaustive sub-space: every subset of the 7 judged TLS-bearing init positions x {struct-built, loaded from JSON} x {static, dynamic cluster files} x {admin dump before / after the first file dump}, plus 400 (12000) seeded histories of runtime updates (listener, cluster, hosts, router, extend, cluster-manager TLS); every case calls the real ConfigDump handler for all 8 endpoint kinds and searches each body for every marker; each case runs twice from Reset() and the forced file dump / inherit bytes must equal the reference run, keep every real key and never contain the placeholder; live objects must deep-equal a pristine rebuild. c20-race: 4 goroutines of admin dumps (one through a loopback HTTP server) against file dumps, race build with anchors, and dumps steered into transferConfig through the verif hook point.",
+    "note": "Setter-level feeding mirrors MOSN's init (no real listeners; 'TLS keeps working' is judged at the config-data level). 24 raw-JSON holes that nothing in the tree decodes as a TLS context are generated and counted but not judged.",
+}
